@@ -18,6 +18,7 @@ CFG = {'assumptions': ['tokio timer, mpsc and oneshot semantics; xxh64 collision
  'module': 'Dnp3.Props.C15',
  'monitors': ['success_needs_response',
               'stale_or_foreign_ignored',
+              'request_seq_fresh',
               'foreign_ignored',
               'delivered_once_in_order',
               'confirm_exactly_when',
